@@ -79,6 +79,18 @@ def subst(t, f):
 
 # ---- simplifier ------------------------------------------------------------------
 
+def _dict_of_zip(z):
+    """dict(zip(KEYS, VALUES)) with literal keys: a dict display (VALUES[i] when VALUES is not itself a display)"""
+    K, V = z[2]
+    if K[0] not in ("tup", "list") or not all(is_const(k) for k in K[1]):
+        return None
+    if V[0] in ("tup", "list"):
+        if len(V[1]) != len(K[1]):
+            return None
+        return ("dict", tuple(zip(K[1], V[1])))
+    return ("dict", tuple((k, simp(("idx", V, C(i)))) for i, k in enumerate(K[1])))
+
+
 def _membership_base(b):
     """`x in set(L)`, `x in frozenset(L)`, `x in list(L)`, `x in sorted(L)` ask the same question as `x in L` (for hashable x -
     an unhashable x cannot be an element of a list of state numbers either); likewise a conditional between L and a set of L."""
@@ -313,6 +325,35 @@ def simp(t):
         if is_const(a) and is_const(b) and isinstance(a[1], str) and isinstance(b[1], str):
             return C(a[1] + b[1])
         return t
+    if h == "boolval":
+        # value of `a and b` / `a or b`: constants decide from the left
+        op, vals = t[1], list(t[2])
+        out = []
+        for i, v in enumerate(vals):
+            if is_const(v):
+                if bool(v[1]) == (op == "or"):
+                    out.append(v)          # `x or True...`: evaluation stops here
+                    break
+                if i == len(vals) - 1:
+                    out.append(v)
+                continue                    # neutral constant in front of further operands
+            out.append(v)
+        if len(out) == 1:
+            return out[0]
+        if not out:
+            return vals[-1]
+        return ("boolval", op, tuple(out)) if tuple(out) != t[2] else t
+    if h == "setitem" and t[1][0] == "ite" and is_const(t[2]) and all(x[0] in ("dict", "ite") for x in (t[1][2], t[1][3])):
+        return simp(("ite", t[1][1], simp(("setitem", t[1][2], t[2], t[3])), simp(("setitem", t[1][3], t[2], t[3]))))
+    if h == "setitem" and t[1][0] == "dict" and is_const(t[2]):
+        items = [(k, v) for k, v in t[1][1] if k != t[2]]
+        if len(items) == len(t[1][1]):
+            return ("dict", tuple(items) + ((t[2], t[3]),))
+        return ("dict", tuple((k, (t[3] if k == t[2] else v)) for k, v in t[1][1]))
+    if h == "call" and t[1] == "dict" and len(t[2]) == 1 and not t[3] and t[2][0][0] == "call" and t[2][0][1] == "zip" and len(t[2][0][2]) == 2:
+        d = _dict_of_zip(t[2][0])
+        if d is not None:
+            return d
     if h == "call":
         name, args = t[1], t[2]
         if name == "abs" and len(args) == 1:
@@ -564,6 +605,17 @@ class SymX:
                     else:
                         st.env[n] = simp(("cat", st.env[n], ("list", (arg,))))
                     return st
+                if isinstance(c.func, ast.Attribute) and isinstance(c.func.value, ast.Name) and c.func.value.id in st.env and c.func.attr == "update" \
+                        and len(c.args) == 1 and not c.keywords and st.env[c.func.value.id][0] == "dict":
+                    arg = ev(c.args[0])
+                    if arg[0] == "call" and arg[1] == "zip" and len(arg[2]) == 2:
+                        arg = _dict_of_zip(arg) or arg
+                    if arg[0] == "dict" and all(is_const(k) for k, _ in arg[1]):
+                        d = st.env[c.func.value.id]
+                        for k, v in arg[1]:
+                            d = simp(("setitem", d, k, v))
+                        st.env[c.func.value.id] = d
+                        return st
                 t = ev(s.value)
                 st.effects.append((self._alive(st), "call", t))
                 return st
@@ -751,7 +803,7 @@ class SymX:
             i = self.expr(t.slice, st, f, depth)
             st.effects.append((self._alive(st), "setitem", base, i, v))
             if isinstance(t.value, ast.Name) and t.value.id in st.env:
-                st.env[t.value.id] = ("setitem", st.env[t.value.id], i, v)
+                st.env[t.value.id] = simp(("setitem", st.env[t.value.id], i, v))
         else:
             raise Unsupported("assignment target %s" % type(t).__name__)
 
@@ -806,7 +858,7 @@ class SymX:
                 el, ps = ("elem", L.id), ("pos", L.id)
                 at = simp(("idx", L.source, i))
                 return deep_simp(subst(L.elt, lambda x: at if x == el else (i if x == ps else None)))
-        if base[0] == "ite" and depth < 3 and (C(None) in (base[2], base[3]) or "compr" in (base[2][0], base[3][0])):
+        if base[0] == "ite" and depth < 3 and (C(None) in (base[2], base[3]) or "compr" in (base[2][0], base[3][0]) or all(x[0] in ("dict", "ite") for x in (base[2], base[3]))):
             # (None if c else table)[k]: the subscript of whichever it is
             return simp(("ite", base[1], self._subscript(base[2], i, depth + 1), self._subscript(base[3], i, depth + 1)))
         return simp(("idx", base, i))
